@@ -169,7 +169,7 @@ static std::string snap_str(const Snap& s) {
 
 // ------------------------------------------------------------------------------------------------ calls
 enum Kind { K_SETOPT, K_SETEXTRA, K_SETCMT, K_RESETSTATE, K_RESETCMT, K_INST, K_NEWLABEL, K_NAMEDLABEL, K_BIND, K_ALIGN, K_EMBED,
-            K_EMBEDLABEL, K_SECTION, K_NEWSECTION, K_REL, K_EMBEDLABELDELTA, K_MEM, K_VSIB, K_CONSTPOOL, K_PUSHPOP, K_LDST, K_SHIFT, K_VSIB2 };
+            K_EMBEDLABEL, K_SECTION, K_NEWSECTION, K_REL, K_EMBEDLABELDELTA, K_MEM, K_VSIB, K_CONSTPOOL, K_PUSHPOP, K_LDST, K_SHIFT, K_VSIB2, K_LDP, K_MOVM, K_SIMDLS, K_VRRR };
 struct Call {
   Kind kind; uint32_t a = 0, b = 0; uint64_t c = 0; bool flag = false;
   Operand ops[6]; std::string name; const char* what = ""; uint32_t nform = 6;
@@ -241,6 +241,18 @@ static Res exec(Ctx& c, const Call& k) {
       case K_VSIB2: {   // vgatherdps v {k}, [vsib]: the AVX-512 form, mask in the extra register; verdict computed by the model (EVEX or VEX prefix, compressed disp8)
         Operand none, ext[3];
         e = c.em->_emit(x86::Inst::kIdVgatherdps, k.ops[0], k.ops[1], none, ext); break; }
+      case K_LDP: {   // a64 load / store pair with arbitrary register / addressing fields: verdict computed by the model (kEncodingBaseLdpStp)
+        Operand ext[3];
+        e = c.em->_emit(k.a, k.ops[0], k.ops[1], k.ops[2], ext); break; }
+      case K_MOVM: {   // mov r, [mem] / mov [mem], r (every GP width, the moffs special form included): verdict computed by the model
+        Operand none, ext[3];
+        e = c.em->_emit(k.a, k.ops[0], k.ops[1], none, ext); break; }
+      case K_SIMDLS: {   // a64 ldr / str of a B/H/S/D/Q register with arbitrary register / addressing fields: verdict computed by the model (kEncodingSimdLdSt)
+        Operand none, ext[3];
+        e = c.em->_emit(k.a, k.ops[0], k.ops[1], none, ext); break; }
+      case K_VRRR: {   // vaddps v, v, v with an optional mask in the extra register: VEX2 / VEX3 / EVEX chosen by the ids, the width and the mask; verdict computed by the model
+        Operand ext[3];
+        e = c.em->_emit(x86::Inst::kIdVaddps, k.ops[0], k.ops[1], k.ops[2], ext); break; }
       case K_SHIFT: {   // shift / rotate of a register by an immediate: verdict computed by the model (validator + kEncodingX86Rot + EmitX86R)
         Operand none, ext[3];
         e = c.em->_emit(k.a, k.ops[0], k.ops[1], none, ext); break; }
@@ -696,15 +708,19 @@ static void sweep_vexonly() {
             Call m = k; char pos[32];
             if (part == 0) { if (!(k.ops[i].is_reg() && is_vec(k.ops[i].as<Reg>().reg_type()))) continue; m.ops[i].as<Reg>().set_id(16 + (id + i) % 16); snprintf(pos, sizeof(pos), "op%u", i); }
             else { if (!(k.ops[i].is_mem() && is_vec(k.ops[i].as<BaseMem>().index_type()))) continue; m.ops[i].as<BaseMem>().set_index_id(16 + (id + i) % 16); snprintf(pos, sizeof(pos), "op%u.index", i); }
-            exec(c, z);
-            size_t before = c.code.text_section()->buffer_size();
-            Res r2 = exec(c, m);
-            if (r2.ret == 0) {
-              accepted++;
-              size_t after = c.code.text_section()->buffer_size();
-              printf("W %u %s %s", id, name.data(), pos);
-              for (size_t q = before; q < after && q < before + 15; q++) printf(" %02x", c.code.text_section()->data()[q]);
-              printf("\n");
+            for (int noval = 0; noval < 2; noval++) {   // with strict validation, and with the encoder alone (the default configuration)
+              if (noval) c.em->clear_diagnostic_options(DiagnosticOptions::kValidateAssembler);
+              exec(c, z);
+              size_t before = c.code.text_section()->buffer_size();
+              Res r2 = exec(c, m);
+              if (noval) c.em->add_diagnostic_options(DiagnosticOptions::kValidateAssembler);
+              if (r2.ret == 0) {
+                accepted++;
+                size_t after = c.code.text_section()->buffer_size();
+                printf("W %u %s %s%s", id, name.data(), pos, noval ? "/encoder-alone" : "");
+                for (size_t q = before; q < after && q < before + 15; q++) printf(" %02x", c.code.text_section()->data()[q]);
+                printf("\n");
+              }
             }
           }
         }
@@ -878,6 +894,20 @@ static void run_session(uint64_t seed, uint64_t session, bool verbose) {
       vq.ops[1].copy_from(m);
       pending.push_back(vq);
     }
+    if (pending.empty() && c.as && arch != AR_A64 && g.chance(5)) {   // VEX / EVEX register form: reset_state(), optional set_extra_reg(k), vaddps v, v, v
+      Call z; z.kind = K_RESETSTATE; z.what = "reset_state"; pending.push_back(z);
+      if (g.chance(40)) { Call x; x.kind = K_SETEXTRA; x.what = "set_extra_reg"; static const uint32_t kw[] = {0, 8, 9, 15};
+        Reg kr = Reg::from_type_and_id(g.chance(95) ? RegType::kMask : RegType::kGp32, g.chance(88) ? 1 + g.below(7) : g.pick(kw));
+        x.a = kr.signature().bits(); x.b = kr.id(); pending.push_back(x); }
+      Call vq; vq.kind = K_VRRR; vq.what = "vrrr"; vq.nform = 3;
+      bool x64 = arch == AR_X64;
+      uint32_t r = g.below(100);
+      uint32_t vt = r < 40 ? uint32_t(RegType::kVec128) : r < 70 ? uint32_t(RegType::kVec256) : r < 95 ? uint32_t(RegType::kVec512) : uint32_t(RegType::kGp32);
+      uint32_t nid = x64 ? (g.chance(50) ? 16 : 32) : 8;
+      auto id = [&]() { return g.chance(90) ? g.below(nid) : g.below(40); };
+      vq.ops[0] = mk_reg(vt, id()); vq.ops[1] = mk_reg(g.chance(92) ? vt : uint32_t(RegType::kVec128), id()); vq.ops[2] = mk_reg(g.chance(92) ? vt : uint32_t(RegType::kVec256), id());
+      pending.push_back(vq);
+    }
     if (pending.empty() && c.as && arch != AR_A64 && g.chance(5)) {   // shift / rotate r, imm
       using namespace x86;
       Call z; z.kind = K_RESETSTATE; z.what = "reset_state"; pending.push_back(z);
@@ -891,6 +921,7 @@ static void run_session(uint64_t seed, uint64_t session, bool verbose) {
                   : r < 90 ? uint32_t(RegType::kGp64) : r < 95 ? uint32_t(RegType::kVec128) : 2 + g.below(30);
       static const uint32_t wid[] = {4, 7, 8, 15, 16, 31, 32, 255, 256, 0xFFFFFFFFu};
       uint32_t rid = g.chance(80) ? g.below(x64 ? 16 : 8) : g.pick(wid);
+      if (rt == uint32_t(RegType::kVec128) && g.chance(70)) { static const uint32_t vb[] = {15, 16, 17, 31, 32}; rid = g.pick(vb); }   // the validator's EVEX-only register boundary
       int64_t imm;
       switch (g.below(6)) { case 0: imm = 1; break; case 1: imm = int64_t(g.below(64)); break; case 2: imm = 257; break; case 3: imm = int64_t(g.below(600)) - 300; break;
                             case 4: imm = int64_t(g.next()); break; default: imm = int64_t(g.below(8)); break; }
@@ -904,6 +935,70 @@ static void run_session(uint64_t seed, uint64_t session, bool verbose) {
       static const uint32_t wid[] = {0, 7, 8, 15, 31, 32, 255, 256, 1000, 0xFFFFFFFFu};
       pq.a = g.chance(70) ? 1 + g.below(6) : g.pick(wid);
       pq.ops[0] = mk_reg(uint32_t(RegType::kSegment), pq.a);
+      pending.push_back(pq);
+    }
+    if (pending.empty() && c.as && arch == AR_A64 && g.chance(8)) {   // a64 SIMD / FP load / store addressing path
+      using namespace a64;
+      Call z; z.kind = K_RESETSTATE; z.what = "reset_state"; pending.push_back(z);
+      Call lq; lq.kind = K_SIMDLS; lq.what = "simdls"; lq.nform = 2;
+      lq.a = g.chance(50) ? Inst::kIdLdr_v : Inst::kIdStr_v;
+      uint32_t r = g.below(100);
+      uint32_t rt = r < 88 ? uint32_t(RegType::kVec8) + g.below(5) : r < 94 ? uint32_t(RegType::kGp64) : 2 + g.below(30);
+      static const uint32_t wr[] = {31, 32, 40, 62, 63, 64, 200, 255, 300, 0xFFFFFFFFu};
+      uint32_t rid = g.chance(82) ? g.below(32) : g.pick(wr);
+      Operand reg = mk_reg(rt, rid); if (!reg.is_reg()) reg = mk_reg(uint32_t(RegType::kVec128), rid);
+      if (reg.as<Reg>().reg_type() == RegType::kVec128 && g.chance(12)) {
+        if (g.chance(50)) reg.as<Vec>().set_element_type(VecElementType(1 + g.below(4))); else { reg.as<Vec>().set_element_type(VecElementType::kS); reg.as<Vec>().set_element_index(g.below(4)); }
+      }
+      r = g.below(100);
+      uint32_t bt = r < 86 ? uint32_t(RegType::kGp64) : r < 90 ? uint32_t(RegType::kGp32) : r < 94 ? uint32_t(RegType::kVec128) : r < 97 ? 0u : 2 + g.below(30);
+      if (bt == 0 && lq.a == Inst::kIdLdr_v) bt = uint32_t(RegType::kGp64);      // ldr has a literal form: not modelled here
+      r = g.below(100);
+      uint32_t it = r < 50 ? 0u : r < 72 ? uint32_t(RegType::kGp64) : r < 92 ? uint32_t(RegType::kGp32) : r < 96 ? uint32_t(RegType::kVec128) : 2 + g.below(30);
+      a64::Mem m;
+      m.set_base_type(RegType(bt)); m.set_base_id(g.chance(85) ? g.below(32) : g.pick(wr));
+      m.set_index_type(RegType(it)); m.set_index_id(g.chance(80) ? g.below(31) : g.pick(wr));
+      m.set_shift_op(ShiftOp(g.chance(45) ? 0 : g.below(16)));
+      { static const uint32_t sv[] = {0, 0, 0, 1, 2, 3, 4, 31}; m.set_shift(g.pick(sv)); }
+      m.set_offset_mode(arm::OffsetMode(g.chance(70) ? 0 : g.below(4)));
+      int32_t off;
+      switch (g.below(8)) { case 0: off = 0; break; case 1: off = int32_t(g.below(512)) * 16; break; case 2: off = int32_t(g.below(600)) - 300; break;
+                            case 3: off = int32_t(4090 + g.below(12)) << g.below(5); break; case 4: off = int32_t(g.u32()); break; case 5: off = int32_t(g.below(8192)); break;
+                            case 6: off = -256 + int32_t(g.below(3)) - 1; break; default: off = 255 + int32_t(g.below(3)) - 1; break; }
+      if (it != 0 && g.chance(80)) off = 0;
+      if (bt != 0) m.set_offset_lo32(off);
+      lq.ops[0] = reg; lq.ops[1].copy_from(m);
+      pending.push_back(lq);
+    }
+    if (pending.empty() && c.as && arch == AR_A64 && g.chance(7)) {   // a64 load / store pair path
+      using namespace a64;
+      Call z; z.kind = K_RESETSTATE; z.what = "reset_state"; pending.push_back(z);
+      Call pq; pq.kind = K_LDP; pq.what = "ldp"; pq.nform = 3;
+      static const uint32_t ids[] = { Inst::kIdLdp, Inst::kIdStp, Inst::kIdLdnp, Inst::kIdStnp, Inst::kIdLdpsw, Inst::kIdStgp, Inst::kIdLdp, Inst::kIdStp };
+      pq.a = g.pick(ids);
+      bool xonly = pq.a == Inst::kIdLdpsw || pq.a == Inst::kIdStgp;
+      uint32_t r = g.below(100);
+      uint32_t rt0 = r < 45 ? uint32_t(RegType::kGp64) : r < 90 ? uint32_t(RegType::kGp32) : r < 95 ? uint32_t(RegType::kVec128) : 2 + g.below(30);
+      if (xonly && rt0 == uint32_t(RegType::kGp32) && g.chance(80)) rt0 = uint32_t(RegType::kGp64);
+      uint32_t rt1 = g.chance(88) ? rt0 : (rt0 == uint32_t(RegType::kGp64) ? uint32_t(RegType::kGp32) : uint32_t(RegType::kGp64));
+      static const uint32_t wr[] = {31, 32, 40, 62, 63, 64, 200, 255, 300, 0xFFFFFFFFu};
+      uint32_t rid0 = g.chance(85) ? g.below(31) : g.pick(wr), rid1 = g.chance(85) ? g.below(31) : g.pick(wr);
+      r = g.below(100);
+      uint32_t bt = r < 86 ? uint32_t(RegType::kGp64) : r < 91 ? uint32_t(RegType::kGp32) : r < 95 ? uint32_t(RegType::kVec128) : 2 + g.below(30);
+      uint32_t it = g.chance(88) ? 0u : (g.chance(50) ? uint32_t(RegType::kGp64) : uint32_t(RegType::kGp32));
+      a64::Mem m;
+      m.set_base_type(RegType(bt)); m.set_base_id(g.chance(88) ? g.below(32) : g.pick(wr));
+      m.set_index_type(RegType(it)); m.set_index_id(g.below(31));
+      m.set_offset_mode(arm::OffsetMode(g.chance(60) ? 0 : g.below(4)));
+      int32_t off;
+      switch (g.below(7)) { case 0: off = 0; break; case 1: off = (int32_t(g.below(128)) - 64) * 8; break; case 2: off = (int32_t(g.below(128)) - 64) * 4; break;
+                            case 3: off = (int32_t(g.below(128)) - 64) * 16; break; case 4: off = int32_t(g.below(1200)) - 600; break; case 5: off = int32_t(g.u32()); break;
+                            default: off = (g.chance(50) ? 63 : -64) * (4 << g.below(3)) + (int32_t(g.below(3)) - 1) * (4 << g.below(3)); break; }
+      m.set_offset_lo32(off);
+      pq.ops[0] = mk_reg(rt0, rid0); pq.ops[1] = mk_reg(rt1, rid1);
+      if (!pq.ops[0].is_reg()) pq.ops[0] = mk_reg(uint32_t(RegType::kGp64), rid0);
+      if (!pq.ops[1].is_reg()) pq.ops[1] = mk_reg(uint32_t(RegType::kGp64), rid1);
+      pq.ops[2].copy_from(m);
       pending.push_back(pq);
     }
     if (pending.empty() && c.as && arch == AR_A64 && g.chance(12)) {   // a64 load / store addressing path
@@ -941,6 +1036,40 @@ static void run_session(uint64_t seed, uint64_t session, bool verbose) {
       if (bt != 0) m.set_offset_lo32(off);
       lq.ops[0] = mk_reg(rt, rid); lq.ops[1].copy_from(m);
       pending.push_back(lq);
+    }
+    if (pending.empty() && c.as && arch != AR_A64 && g.chance(8)) {   // mov r, [mem] / mov [mem], r - half of them accumulator + base-less address (moffs)
+      Call z; z.kind = K_RESETSTATE; z.what = "reset_state"; pending.push_back(z);
+      Call mv; mv.kind = K_MOVM; mv.what = "movm"; mv.flag = g.chance(50); mv.nform = 2;
+      { static const uint32_t ar[] = { x86::Inst::kIdAdd, x86::Inst::kIdOr, x86::Inst::kIdAdc, x86::Inst::kIdSbb, x86::Inst::kIdAnd, x86::Inst::kIdSub, x86::Inst::kIdXor, x86::Inst::kIdCmp };
+        mv.a = g.chance(60) ? uint32_t(x86::Inst::kIdMov) : g.pick(ar); }     // mov (with its moffs form) or one of the eight kEncodingX86Arith instructions
+      bool x64 = arch == AR_X64;
+      uint32_t r = g.below(100);
+      uint32_t rt = r < 15 ? uint32_t(RegType::kGp8Lo) : r < 23 ? uint32_t(RegType::kGp8Hi) : r < 38 ? uint32_t(RegType::kGp16) : r < 68 ? uint32_t(RegType::kGp32)
+                  : r < 92 ? uint32_t(RegType::kGp64) : r < 96 ? uint32_t(RegType::kVec128) : 2 + g.below(22);
+      static const uint32_t wid[] = {4, 5, 7, 8, 12, 15, 16, 31, 32, 255, 0xFFFFFFFFu};
+      uint32_t rid = g.chance(45) ? 0 : g.chance(85) ? g.below(x64 ? 16 : 8) : g.pick(wid);
+      Operand reg = mk_reg(rt, rid); if (!reg.is_reg()) reg = mk_reg(uint32_t(RegType::kGp32), rid);
+      uint32_t nat = uint32_t(x64 ? (g.chance(75) ? RegType::kGp64 : RegType::kGp32) : RegType::kGp32);
+      bool baseless = g.chance(50);
+      uint32_t bt = baseless ? 0u : (g.chance(80) ? nat : g.chance(50) ? uint32_t(RegType::kGp16) : g.below(14));
+      uint32_t it = baseless ? 0u : (g.chance(60) ? 0u : g.chance(85) ? nat : g.below(14));
+      if (bt == 1) bt = 0; if (it == 1) it = 0;     // label bases belong to the label-path model
+      x86::Mem m;
+      m.set_base_type(RegType(bt)); m.set_base_id(g.chance(88) ? g.below(x64 ? 16 : 8) : g.pick(wid));
+      m.set_index_type(RegType(it)); m.set_index_id(g.chance(88) ? g.below(x64 ? 16 : 8) : g.pick(wid));
+      m.set_shift(g.chance(60) ? 0 : g.below(4));
+      { OperandSignature sg = m.signature(); sg.set_field<x86::Mem::kSignatureMemSegmentMask>(g.chance(70) ? 0 : g.below(8)); m.set_signature(sg); }
+      m.set_addr_type(x86::Mem::AddrType(g.chance(65) ? 0 : g.below(4)));
+      { uint32_t rsz = reg.x86_rm_size(); static const uint32_t sz[] = {0, 1, 2, 4, 8, 16}; m.set_size(g.chance(80) ? (g.chance(50) ? rsz : 0) : g.pick(sz)); }
+      int64_t off;
+      switch (g.below(6)) { case 0: off = 0; break; case 1: off = int64_t(g.below(256)) - 128; break; case 2: off = int64_t(g.below(4)) - 2 + (g.chance(50) ? 127 : -128); break;
+                            case 3: off = int32_t(g.u32()); break; case 4: off = int64_t(g.u32() & 0xFFFF) - 0x8000; break; default: off = int64_t(g.next()) >> g.below(40); break; }
+      if (bt == 0 && it == 0 && g.chance(70)) { static const int64_t av[] = {0x1000, 0x10040, 0x7FFFFFFF, 0x80000000ll, 0xFFFFFFFFll, 0x100000000ll, -1, -4096, 0x12345678ll, 0x8000FFFFll, 0x123456789All, 0x7FFFFFFFFFFFFF00ll};
+        off = g.pick(av) + int64_t(g.below(64)); }
+      if (bt == 0) m.set_offset(x64 ? off : int64_t(int32_t(off))); else m.set_offset_lo32(int32_t(off));
+      Operand mo; mo.copy_from(m);
+      mv.ops[0] = mv.flag ? mo : reg; mv.ops[1] = mv.flag ? reg : mo;
+      pending.push_back(mv);
     }
     if (pending.empty() && c.as && arch != AR_A64 && g.chance(9)) {   // memory-operand path instruction
       Call z; z.kind = K_RESETSTATE; z.what = "reset_state"; pending.push_back(z);
@@ -1026,6 +1155,25 @@ static void run_session(uint64_t seed, uint64_t session, bool verbose) {
         snprintf(cmd, sizeof(cmd), "V2 %u %u %u %u %u %u %u %u %u %u %u %u %lld", unsigned(x86::Inst::kIdVgatherdps), unsigned(k.ops[0].as<Reg>().reg_type()), k.ops[0].id(),
                  k.ops[0].x86_rm_size(), unsigned(m.base_type()), m.base_id(), unsigned(m.index_type()), m.index_id(), m.shift(), unsigned(m.segment_id()),
                  unsigned(m.addr_type()), unsigned(m.size()), off);
+      }
+      else if (k.kind == K_MOVM) {
+        const x86::Mem& m = k.ops[k.flag ? 0 : 1].as<x86::Mem>(); const Operand& rg = k.ops[k.flag ? 1 : 0];
+        long long off = m.base_type() == RegType::kNone ? (long long)m.offset() : (long long)m.offset_lo32();
+        snprintf(cmd, sizeof(cmd), "MV %u %d %u %u %u %u %u %u %u %u %u %u %u %lld", k.a, int(k.flag), unsigned(rg.as<Reg>().reg_type()), rg.id(), unsigned(rg.x86_rm_size()),
+                 unsigned(m.base_type()), m.base_id(), unsigned(m.index_type()), m.index_id(), m.shift(), unsigned(m.segment_id()), unsigned(m.addr_type()), unsigned(m.size()), off);
+      }
+      else if (k.kind == K_VRRR)
+        snprintf(cmd, sizeof(cmd), "VR %u %u %u %u %u %u %u %u", unsigned(x86::Inst::kIdVaddps), unsigned(k.ops[0].as<Reg>().reg_type()), k.ops[0].id(), unsigned(k.ops[1].as<Reg>().reg_type()), k.ops[1].id(),
+                 unsigned(k.ops[2].as<Reg>().reg_type()), k.ops[2].id(), unsigned(k.ops[0].x86_rm_size() | k.ops[1].x86_rm_size()));
+      else if (k.kind == K_SIMDLS) {
+        const a64::Mem& m = k.ops[1].as<a64::Mem>(); const a64::Vec& v = k.ops[0].as<a64::Vec>();
+        snprintf(cmd, sizeof(cmd), "LV %u %u %u %u %d %u %u %u %u %u %u %u %d", k.a, unsigned(v.reg_type()), v.id(), unsigned(v.element_type()), int(v.has_element_index()), unsigned(m.base_type()), m.base_id(),
+                 unsigned(m.index_type()), m.index_id(), unsigned(m.shift_op()), m.shift(), unsigned(m.offset_mode()), m.base_type() == RegType::kNone ? 0 : int(m.offset_lo32()));
+      }
+      else if (k.kind == K_LDP) {
+        const a64::Mem& m = k.ops[2].as<a64::Mem>();
+        snprintf(cmd, sizeof(cmd), "LP %u %u %u %u %u %u %u %u %u %d", k.a, unsigned(k.ops[0].as<Reg>().reg_type()), k.ops[0].id(), unsigned(k.ops[1].as<Reg>().reg_type()), k.ops[1].id(),
+                 unsigned(m.base_type()), m.base_id(), unsigned(m.index_type()), unsigned(m.offset_mode()), m.base_type() == RegType::kNone ? 0 : int(m.offset_lo32()));
       }
       else if (k.kind == K_SHIFT)
         snprintf(cmd, sizeof(cmd), "SH %u %u %u %u %lld", k.a, unsigned(k.ops[0].as<Reg>().reg_type()), k.ops[0].id(), unsigned(k.ops[0].x86_rm_size()), (long long)int64_t(k.c));
@@ -1191,9 +1339,9 @@ static void run_session(uint64_t seed, uint64_t session, bool verbose) {
       else snprintf(cmd, sizeof(cmd), "I err %u", r.ret);
       char b[64]; snprintf(b, sizeof(b), " %s id=%u", k.what, k.a); info += b; info += ops_str(k);
     }
-    else if (k.kind == K_MEM || k.kind == K_VSIB || k.kind == K_LDST || k.kind == K_SHIFT || k.kind == K_VSIB2) {
+    else if (k.kind == K_MEM || k.kind == K_VSIB || k.kind == K_LDST || k.kind == K_SHIFT || k.kind == K_VSIB2 || k.kind == K_LDP || k.kind == K_MOVM || k.kind == K_SIMDLS || k.kind == K_VRRR) {
       if (r.ret == 0 && !r.thrown) { std::string bad = bad_reg_ids(c, k, pre); if (!bad.empty()) { info += " badreg enc=0"; info += bad; info += " inst-modelled"; } }
-      info += k.kind == K_MEM ? " mem" : k.kind == K_LDST ? " ldst" : k.kind == K_SHIFT ? " shift" : k.kind == K_VSIB2 ? " vsib2" : " vsib"; info += ops_str(k);
+      info += k.kind == K_MEM ? " mem" : k.kind == K_LDST ? " ldst" : k.kind == K_SHIFT ? " shift" : k.kind == K_VSIB2 ? " vsib2" : k.kind == K_LDP ? " ldp" : k.kind == K_MOVM ? " movm" : k.kind == K_SIMDLS ? " simdls" : k.kind == K_VRRR ? " vrrr" : " vsib"; info += ops_str(k);
     }
     else if (k.kind == K_REL) { char b[96]; snprintf(b, sizeof(b), " rel kind=%u label=%u c=%" PRIu64, k.a, k.b, k.c); info += b;
       if (r.ret == 0 && !r.thrown && k.b < pre.lbound.size() && pre.lbound[k.b] && pre.lsec[k.b] != pre.cur && post.fix > pre.fix) info += " xsec-fixup"; }
@@ -1216,9 +1364,13 @@ static void run_session(uint64_t seed, uint64_t session, bool verbose) {
     const Call& k = history[i]; const Res& r = results[i];
     bool failed = r.ret != 0 || r.thrown;
     if (!failed) { Res r2 = exec(fr, k); if (r2.ret != 0 || r2.thrown) replay_fail++; }
-    else if (k.kind == K_INST || k.kind == K_REL || k.kind == K_MEM || k.kind == K_VSIB || k.kind == K_PUSHPOP || k.kind == K_LDST || k.kind == K_SHIFT || k.kind == K_VSIB2) { Call z; z.kind = K_RESETSTATE; exec(fr, z); }
+    else if (k.kind == K_INST || k.kind == K_REL || k.kind == K_MEM || k.kind == K_VSIB || k.kind == K_PUSHPOP || k.kind == K_LDST || k.kind == K_SHIFT || k.kind == K_VSIB2 || k.kind == K_LDP || k.kind == K_MOVM || k.kind == K_SIMDLS || k.kind == K_VRRR) { Call z; z.kind = K_RESETSTATE; exec(fr, z); }
     else if (k.kind == K_BIND && c.as) {
       if (r.ret == uint32_t(Error::kInvalidDisplacement)) exec(fr, k); else { Call z; z.kind = K_RESETCMT; exec(fr, z); }
+    }
+    else if (k.kind == K_CONSTPOOL && c.as && r.ret == uint32_t(Error::kInvalidDisplacement)) {
+      // the bind inside embed_const_pool was refused: like a refused bind() it consumes the inline comment (the model's `residual`)
+      Call z; z.kind = K_RESETCMT; exec(fr, z);
     }
   }
   Snap s1, s2; take(c, s1); take(fr, s2);
@@ -1351,13 +1503,13 @@ int main(int argc, char** argv) {
   bool verbose = argc > 4;
   for (size_t i = 0; i < sizeof(kData); i++) kData[i] = uint8_t(i * 37 + 1);
   // numeric values of the constants the model mirrors (compared with the model's `model_constants`)
-  printf("T %u %u %u %u %u %u %u %u %u %u %u %u %u %u %u %u %u %u %u %u %u %u %u %u %u %u %u\n", unsigned(Error::kInvalidArgument), unsigned(Error::kInvalidState), unsigned(Error::kInvalidLabel),
+  printf("T %u %u %u %u %u %u %u %u %u %u %u %u %u %u %u %u %u %u %u %u %u %u %u %u %u %u %u %u\n", unsigned(Error::kInvalidArgument), unsigned(Error::kInvalidState), unsigned(Error::kInvalidLabel),
          unsigned(Error::kLabelAlreadyBound), unsigned(Error::kLabelAlreadyDefined), unsigned(Error::kLabelNameTooLong), unsigned(Error::kInvalidLabelName),
          unsigned(Error::kInvalidParentLabel), unsigned(Error::kInvalidSection), unsigned(Error::kInvalidSectionName), unsigned(Error::kInvalidDisplacement),
          unsigned(Error::kInvalidOperandSize), unsigned(Globals::kMaxAlignment), unsigned(Globals::kMaxSectionNameSize), unsigned(Globals::kMaxLabelNameSize),
          unsigned(AlignMode::kMaxValue), unsigned(Globals::kInvalidId), unsigned(InstOptions::kShortForm), unsigned(InstOptions::kLongForm), unsigned(Error::kInvalidPhysId),
          unsigned(Error::kInvalidRexPrefix), unsigned(Error::kInvalidAddress), unsigned(Error::kInvalidAddressIndex), unsigned(Error::kInvalidAddress64Bit),
-         unsigned(Error::kInvalidSegment), unsigned(Error::kInvalidInstruction), unsigned(Error::kInvalidAddressScale));
+         unsigned(Error::kInvalidSegment), unsigned(Error::kInvalidInstruction), unsigned(Error::kInvalidAddressScale), unsigned(Error::kInvalidRegType));
   printf("P bind_atomic=%d\n", probe_bind_atomic());
   g_scratch = new Scratch();
   for (uint64_t s = first; s < first + n; s++) { run_session(seed, s, verbose); fflush(stdout); }
